@@ -387,10 +387,30 @@ def stroke_scenes(ctx):
         style = "STYLE %d %s %s %d %d %s %d" % (FB(rng.choice([5.0, 6.0, 7.0]) if big else rng.choice([1.0, 2.0, 1.5])), rng.choice(["butt", "round", "square"]),
                                                 rng.choice(["miter", "round", "bevel"]), FB(4.0), len(arr),
                                                 " ".join(str(FB(a)) for a in arr), FB(off))
+        if i % 6 == 5:
+            # a dashed chevron (or capped line) lying wholly beyond one side of the surface, farther out than half the width,
+            # whose miter tip or cap reaches in: long dashes, so that the vertex lies inside one
+            W = H = 24
+            wdt = rng.choice([4.0, 6.0, 8.0, 10.0])
+            side = rng.randrange(4)
+            d_ = wdt / 2 + rng.choice([0.3, 0.6, 1.0, 2.0])
+            along = rng.randrange(3, W - 2) + rng.choice([0.0, 0.5])
+            vx, vy, ux, uy = [(-d_, along, 1.0, 0.0), (W + d_, along, -1.0, 0.0), (along, -d_, 0.0, 1.0), (along, H + d_, 0.0, -1.0)][side]
+            L_, h_ = 20.0, rng.choice([2.0, 3.0, 5.0, 8.0])
+            qz = lambda v: round(v * 4) / 4.0
+            if rng.random() < 0.7:
+                pts = [(vx - ux * L_ - uy * h_, vy - uy * L_ + ux * h_), (vx, vy), (vx - ux * L_ + uy * h_, vy - uy * L_ - ux * h_)]
+            else:
+                pts = [(vx - ux * L_, vy - uy * L_), (vx, vy)]
+            ops = ["M " + scene.fpt(qz(pts[0][0]), qz(pts[0][1]))] + ["L " + scene.fpt(qz(a), qz(b)) for a, b in pts[1:]]
+            arr = rng.choice([[1000.0], [30.0, 2.0], [15.0, 1.0, 60.0, 1.0]])
+            off = rng.choice([0.0, 2.0, -3.0])
+            style = "STYLE %d %s %s %d %d %s %d" % (FB(wdt), rng.choice(["square", "round", "butt"]), rng.choice(["miter", "miter", "round"]), FB(rng.choice([10.0, 20.0])), len(arr),
+                                                    " ".join(str(FB(a)) for a in arr), FB(off))
         lines.append("scene %d %d %d I %s ; stroke %s %s SRC solid ffffffff 3 %d 1" % (
             700000 + i, W, H, " ".join(["00000000"] * (W * H)), scene.path_tokens(ops, 0), style, FB(1.0)))
         st_ = style.split()
-        specs.append((W, H, ops, arr, off, bits_f32(int(st_[1])), st_[2], st_[3], 4.0))
+        specs.append((W, H, ops, arr, off, bits_f32(int(st_[1])), st_[2], st_[3], bits_f32(int(st_[4]))))
     try:
         sr = sc.run(lines)
     except sc.ImplDied as e:
